@@ -507,7 +507,8 @@ def _loop_carried_reads_rule(ctx, res) -> None:
     if rd is None or wr is None or lc is None:
         raise AnalysisError("anchor=_FunctionInformationCollector._read_variable/_written_variable/_handle_loop_context missing")
     # (a) sets filled with reads before the region
-    rcfg = CFG(rd.node)
+    from . import common as _common
+    rcfg = CFG(_common.inlined(idx, rd))
     pre_sets = set()
     for nd in rcfg.nodes:
         if nd.kind != "stmt" or nd.ast is None:
@@ -522,7 +523,7 @@ def _loop_carried_reads_rule(ctx, res) -> None:
                             before = True
                 if before:
                     pre_sets.add(c.func.value.attr)
-    wcfg = CFG(wr.node)
+    wcfg = CFG(_common.inlined(idx, wr))
     carried = [nd for nd in wcfg.nodes if nd.kind == "stmt" and nd.ast is not None and any(
         isinstance(c.func, ast.Attribute) and c.func.attr == "add" and is_self_attr(c.func.value, "postread") for c in calls_in(nd.ast))
         and any(pol and any(is_self_attr(y, "loop_depth") for y in ast.walk(t)) for t, pol in wcfg.guards(nd.id))]
@@ -541,7 +542,7 @@ def _loop_carried_reads_rule(ctx, res) -> None:
             "(`for i in r: print(a); a = i + 1` with the assignment extracted) runs again after the region, but the new function does not return the value "
             "and the loop keeps printing the old one", function=wr.qualname)
     # (b) paired update of loop_depth
-    lcfg = CFG(lc.node)
+    lcfg = CFG(_common.inlined(idx, lc))
     ups, downs = [], []
     live = lcfg.reachable(lcfg.entry.id)  # (the copy of a `finally` block for an exit that cannot happen has no guards)
     for nd in lcfg.nodes:
